@@ -398,7 +398,18 @@ def install(eng):
                 raise PyRaise(IndexError('list index out of range'))
         raise Unsupported(f'abstract list [{key!r}]')
 
-    eng.getitem_handlers[wl.AbsList] = abs_getitem
+    prev_getitem = eng.getitem_handlers.get(wl.AbsList)
+
+    def abs_getitem2(e, a, key):
+        if isinstance(key, int) and not isinstance(key, bool) and key in (
+                0, -1) and any(
+                isinstance(p_, (wl.Opaque, tuple)) for p_ in a.parts):
+            return abs_getitem(e, a, key)
+        if prev_getitem is not None:
+            return prev_getitem(e, a, key)
+        return abs_getitem(e, a, key)
+
+    eng.getitem_handlers[wl.AbsList] = abs_getitem2
 
     def abs_len(e, a):
         n = z3.IntVal(0)
